@@ -244,7 +244,8 @@ def main(argv=None):
 
 
 def write_evidence(mod, pid, tier, seed, merged, violations, stale, replayed, wall):
-    os.makedirs(os.path.join(ROOT, "evidence"), exist_ok=True)
+    evdir = os.environ.get("VERIF_EVIDENCE_DIR") or os.path.join(ROOT, "evidence")
+    os.makedirs(evdir, exist_ok=True)
     cov = {}
     level = getattr(mod, "LEVEL", "exploration")
     if merged is not None:
@@ -296,7 +297,7 @@ def write_evidence(mod, pid, tier, seed, merged, violations, stale, replayed, wa
         "wall_s": round(wall, 2),
         "violations": len(violations),
     }
-    with open(os.path.join(ROOT, "evidence", "%s.json" % pid), "w") as f:
+    with open(os.path.join(evdir, "%s.json" % pid), "w") as f:
         json.dump(ev, f, indent=1, default=str)
 
 
